@@ -581,7 +581,7 @@ func TestC19(t *testing.T) {
 			}
 		}
 	}, c19Check)
-	runProp(t, rec, "tls", perShard(evid.Pick(1200, 60000)), func(rt *rapid.T) c19Case {
+	runProp(t, rec, "tls", perShard(evid.Pick(3000, 200000)), func(rt *rapid.T) c19Case {
 		c := c19Gen(rt)
 		key := ""
 		if !c19ValidKinds[c.Kind] || c.Kind != "valid" {
